@@ -67,6 +67,11 @@ pub fn handle(op: &str, a: &[&str]) -> Option<String> {
             let (a, b, c, d) = h::reduce64(u64_of(x)?, u64_of(y)?);
             Some(format!("{} {} {} {}", a, b, c, d))
         }
+        // num_integer::Integer::extended_gcd on i64, exactly the call of the <64-bit exit of gcd_internal
+        ("gcd_egcd64", [x, y]) => {
+            let e = num_integer::Integer::extended_gcd(&i64_of(x)?, &i64_of(y)?);
+            Some(format!("{} {} {}", e.gcd, e.x, e.y))
+        }
         ("gcd_top64", [digs, bits]) => {
             let d: Vec<u64> = list_of(digs)?;
             Some(h::top64(&d, u32_of(bits)?).to_string())
